@@ -72,10 +72,18 @@ func (s BPlusTreeStore) Get(table storage.Table, key []byte) (*storage.KVPair, e
 
 func (s BPlusTreeStore) GetLast(table storage.Table) (*storage.KVPair, error) {
 	result := new(storage.KVPair)
-	s.db.DescendGreaterThan(KVItem{[]byte{table.Prefix()}, nil}, func(i btree.Item) bool {
+	prefix := table.Prefix()
+	// start at the upper bound of this table's key space and stop at the
+	// first key that belongs to it, so keys of other tables are never returned.
+	s.db.DescendLessOrEqual(KVItem{[]byte{prefix + 1}, nil}, func(i btree.Item) bool {
 		item := i.(KVItem)
-		result.Key = item.Key[1:]
-		result.Value = item.Value
+		if item.Key[0] > prefix {
+			return true
+		}
+		if item.Key[0] == prefix {
+			result.Key = item.Key[1:]
+			result.Value = item.Value
+		}
 		return false
 	})
 	if result.Key == nil {
